@@ -27,6 +27,26 @@ pub(crate) fn addr_info(a: &[u8]) -> String {
     }
 }
 
+/// `encpb identify <protocolVersion> <agentVersion> <publicKey> <listenAddrs> <observedAddr> <protocols>`:
+/// prost's encoder on a structured message, then prost's decoder on the bytes.
+pub(crate) fn encpb(t: &[&str]) -> Option<String> {
+    use crate::verif::c19::spec;
+    let [pv, av, pk, la, oa, pr] = t else { return None };
+    let m = identify_schema::Identify {
+        protocol_version: spec::ost(pv)?,
+        agent_version: spec::ost(av)?,
+        public_key: spec::ob(pk)?,
+        listen_addrs: spec::lb(la)?,
+        observed_addr: spec::ob(oa)?,
+        protocols: spec::lst(pr)?,
+        ..Default::default()
+    };
+    let bytes = m.encode_to_vec();
+    let dump = pb(&bytes);
+    let dump = dump.split(" #addrs ").next().unwrap_or("").to_string();
+    Some(format!("ok {} ==> {}", hexd(&bytes), dump))
+}
+
 /// Canonical dump of `identify_schema::Identify::decode`.
 pub(crate) fn pb(bytes: &[u8]) -> String {
     match identify_schema::Identify::decode(bytes) {
